@@ -70,3 +70,34 @@ func c06BothCases(c *Ctx, r *Report) {
 	}
 	r.Floor("R06.8", "letter tests in pkg/scan", n, 6)
 }
+
+// R06.9: program text is typed by the program's grammar, not by the data
+// flags. -S, -A and -O select how *data* is inferred (R06.4); a literal in a
+// DSL program is an int or a float by how it is written. So the functions
+// that build the literal leaves of the syntax tree do not reach the
+// flag-selected inferrer.
+func c06LiteralsNotInferred(c *Ctx, r *Report) {
+	r.Rule("R06.9", "program literals are not typed by the data flags: no function of package cst that builds a literal leaf node (RootNode.Build…LiteralNode and what they call inside the module) reaches mlrval.FromInferredType, FromDeferredType or the inferrer variable — with -A every int literal of the program would become a float, and asserting_int(3) would fail")
+	n := 0
+	for _, fn := range c.ModuleFunctions() {
+		if fn.Pkg == nil || fn.Blocks == nil || !strings.HasSuffix(fn.Pkg.Pkg.Path(), "/pkg/dsl/cst") {
+			continue
+		}
+		if !(strings.HasPrefix(fn.Name(), "Build") && strings.Contains(fn.Name(), "Literal")) {
+			continue
+		}
+		n++
+		reach := staticReach(c, fn)
+		reach[fn] = true
+		bad := ""
+		for f := range reach {
+			nm := SSAName(f)
+			if strings.HasSuffix(nm, "mlrval.FromInferredType") || strings.HasSuffix(nm, "mlrval.FromDeferredType") || strings.HasSuffix(nm, "mlrval.inferTypeFromString") || strings.Contains(nm, "mlrval.inferWith") {
+				bad = nm
+			}
+		}
+		r.Check(bad == "", "R06.9", SSAName(fn), c.Rel(fn.Pos()), "does not reach the data inferrer",
+			fmt.Sprintf("%s reaches %s: the literal's type then depends on -S / -A / -O, which are documented to govern data fields only", SSAName(fn), bad))
+	}
+	r.Floor("R06.9", "literal node builders in package cst", n, 3)
+}
